@@ -274,6 +274,16 @@ def drv_pipeline(tier, rng):
     N = 300 if tier == 'quick' else 6000
     for _ in range(N):
         groups.append([pcase(pipeline.pipeline_case(rng))])
+    # single omissions that do remove something (second pass compares with the reduced request, C15)
+    for mth in pipeline.METHODS:
+        for _ in range(10 if tier == 'quick' else 150):
+            req = pipeline.pipeline_case(rng, mth, ['criteriaOmission'], m=rng.randint(2, 4))
+            pr = req['biases'][0]['props']
+            pr['min'] = 1
+            pr['max'] = max(1, pr.get('max', 1))
+            if pr['max'] >= len(req['criteria']):
+                pr['max'] = len(req['criteria']) - 1
+            groups.append([pcase(req)])
     return groups
 
 
@@ -393,6 +403,55 @@ def drv_c09(tier, rng):
     return groups
 
 
+# ---------------------------------------------------------------- omission twin: the request with the criteria deleted
+def reduce_request(req, omitted):
+    r = copy.deepcopy(req)
+    om = set(omitted)
+    r['biases'] = []
+    r['criteria'] = [c for c in r['criteria'] if c['id'] not in om]
+    for a in r['knownAlternatives']:
+        a['criteria'] = {c: v for c, v in a['criteria'].items() if c not in om}
+    mp = r['methodParameters']
+    m = r['preferenceFunction']
+    if 'weights' in mp:
+        if m == 'choquetIntegral':
+            mp['weights'] = {k: v for k, v in mp['weights'].items() if not (set(k.split(',')) & om)}
+        else:
+            mp['weights'] = {k: v for k, v in mp['weights'].items() if k not in om}
+    if 'electreCriteria' in mp:
+        mp['electreCriteria'] = {k: v for k, v in mp['electreCriteria'].items() if k not in om}
+    if isinstance(mp.get('params'), dict) and 'thresholds' in mp['params']:
+        mp['params']['thresholds'] = [{k: v for k, v in t.items() if k not in om} for t in mp['params']['thresholds']]
+    return r
+
+
+def twins_omission(obs):
+    """second pass: for every accepted request whose only bias is a fired omission, the same request with the
+    omitted criteria deleted and no bias; the two decisions must agree per alternative (C15)"""
+    out = []
+    for i, o in enumerate(obs):
+        c = o['case']
+        bs = c['req'].get('biases', [])
+        if o.get('status') != 200 or len(bs) != 1 or bs[0]['name'] != 'criteriaOmission' or 'group' in c:
+            continue
+        if 'zz_undeclared' in json.dumps(c['req']['methodParameters']):
+            continue
+        ev = [e for e in o.get('events', []) if e.get('kind') == 'bias']
+        if len(ev) != 1 or not ev[0].get('fired'):
+            continue
+        rep = ev[0].get('report', {}).get('props', {})
+        om = [x.get('id') for x in rep.get('omittedCriteria', [])] if isinstance(rep, dict) else []
+        if not om or not all(isinstance(x, str) for x in om):
+            continue
+        if len(om) >= len(c['req']['criteria']):
+            continue
+        t = dict(c)
+        t['req'] = reduce_request(c['req'], om)
+        t['methodref'] = True
+        out.append((i, t))
+    return out
+
+
 def nt_ties(o):
     """non-trivial for ranking shape: at least two entries and at least one tie or two levels"""
     r = o.get('resp', {}).get('result', [])
@@ -445,6 +504,7 @@ FAMILIES = {
     },
     'pipeline': {
         'mode': 'decide', 'trace': 'Trace_Decide', 'drivers': [drv_pipeline],
+        'second_pass': twins_omission, 'second_rel': {'rel': 'perm', 'p': 'C15'},
     },
     'c09': {
         'mode': 'decide', 'trace': 'Trace_Decide', 'drivers': [drv_c09],
